@@ -408,6 +408,15 @@ fn edit_docs(g: &Grammar) -> Vec<(String, String)> {
             }
         }
         out.push((format!("edit-doc({kind},one-param-per-line)"), render(&toks, &gc)));
+        // layout D: a comment on the line of every /end of a module-level element (also the last one, in front of /end MODULE)
+        // and a line comment behind the last parameter line of elements with children
+        let mut gd = HashMap::new();
+        for (i, t) in toks.iter().enumerate() {
+            if i > 1 && t.starts_line && toks[i - 2].kind == TKind::End && (t.depth == 2 || (t.depth == 1 && t.kind == TKind::End)) {
+                gd.insert(i, format!(" /* tail */\n{}", "  ".repeat(t.depth)));
+            }
+        }
+        out.push((format!("edit-doc({kind},trailing-comments)"), render(&toks, &gd)));
     }
     out
 }
@@ -524,7 +533,14 @@ pub fn run(tier: &str) -> Run {
                     Edit::EditStr(k, _) | Edit::EditNum(k, _) | Edit::Remove(k, _) | Edit::Push(k, _) => *k,
                 };
                 let layout = ecases[i].0.rsplit(',').next().unwrap_or("").trim_end_matches(')').to_string();
-                let key = if o == "panic" { format!("C05/panic {}", vcore::explore::panic_key(&w)) } else { format!("C05/{o}/{opname}/{kind}/{layout}") };
+                let key = if o == "panic" {
+                    format!("C05/panic {}", vcore::explore::panic_key(&w))
+                } else if layout == "trailing-comments" && matches!(ecases[i].2, Edit::Remove(..) | Edit::Push(_, true)) {
+                    // (a comment on the line of an /end is an item of its own in the parent: see the open finding)
+                    format!("C05/{o}/{}/comment-on-the-line-of-an-end", if matches!(ecases[i].2, Edit::Remove(..)) { "remove" } else { "push-then-sort_new_items" })
+                } else {
+                    format!("C05/{o}/{opname}/{kind}/{layout}")
+                };
                 run.violation(key, format!("{} {:?}: {w}", ecases[i].0, ecases[i].2), json!({"text": ecases[i].1, "edit": format!("{:?}", ecases[i].2), "edit_case": i}));
             }
         }
